@@ -43,7 +43,7 @@ if [ "$need_h" = 1 ]; then
   (cd harness && go build -tags verif -overlay ../.work/overlay.json -o ../.work/bin/h ./cmd/h)
 fi
 if [ "$need_hs" = 1 ]; then
-  FILES=engine/logic/jump.go,engine/queue/queue.go,engine/pipeline/pipes.go,engine/core/processors.go,jobstorage/serializer.go,gripper/channel_mux.go,gdbi/processor.go,kvgraph/graph.go,kvgraph/index.go,kvindex/kvindex.go
+  FILES=engine/logic/jump.go,engine/queue/queue.go,engine/pipeline/pipes.go,engine/core/processors.go,jobstorage/serializer.go,gripper/channel_mux.go,gdbi/processor.go,kvgraph/graph.go,kvgraph/index.go,kvindex/kvindex.go,server/api.go,kvgraph/new.go,kvgraph/graphdb.go
   .work/bin/instr -repo "$REPO" -out "$VERIF_ROOT/.work/instr" -files "$FILES" \
      -mute engine/logic/jump.go,engine/queue/queue.go -clock gdbi/processor.go > .work/instr/out.json
   hooks_overlay .work/instr/out.json > .work/overlay_sched.json
